@@ -536,7 +536,7 @@ func runC12(c *kit.Ctx) {
 	}
 	gen(full, nil, c.Pick(2, 3), "full")
 	gen(red, nil, c.Pick(4, 5), "reduced")
-	nrand := c.Pick(500, 100000)
+	nrand := c.Pick(500, 30000)
 	for i := 0; i < nrand; i++ {
 		r := c.GlobalRng("c12rand", i)
 		l := 3 + r.Intn(10)
